@@ -40,6 +40,8 @@ def do_kinv(c):
         return {"k": out(np.concatenate(res) if res else np.zeros(0)), "shape": shapes[0] if shapes else []}
     if mode == "as":          # array w, scalar depth (all d equal)
         r = f(w, float(d[0]), **kw)
+    elif mode == "a1":        # array w, one-element depth array (broadcast)
+        r = f(w, np.array([float(d[0])]), **kw)
     elif mode == "aa":        # 1-d arrays
         r = f(w, d, **kw)
     elif mode == "22":        # 2-d arrays of the given shape
